@@ -29,6 +29,7 @@ type Alt struct {
 
 type Config struct {
 	MaxAttrs      int
+	TokenNames    []string // if set, tag names are drawn from this finite set (fork) instead of being symbolic
 	UnwindSym     int
 	MaxDepth      int
 	SplitMax      int // K: max parts for Split/Fields on symbolic strings
